@@ -1,124 +1,56 @@
-import GoCrypt.Model.TypeCache
-import GoCrypt.Model.Codec
-import GoCrypt.Props.TypeInfoIR
+import GoCrypt.Props.C18Core
+import GoCrypt.Props.TypeCacheIR
 
 /-!
 # C18 — codec results do not depend on call history or on value/pointer form
 
-`Marshal`/`Unmarshal` are functions of the type info and the argument (`Codec.marshal ti vals`,
-`Codec.unmarshal ti s`); the only history-carrying state is the type cache. The theorems say the
-type info handed to them — and the struct name used in error texts — never depends on the cache
-contents.
+* `Props/C18Core.lean` (namespace `GoCrypt.C18`): the theorems about the cache protocol model (`Model/TypeCache.lean`) and the
+  citations of the regenerated type-info layer.
+* `Props/TypeCacheIR.lean`: the WHOLE of `getTypeInfo` — warm and cold path, `typeCache.Load`/`LoadOrStore` as atomic steps
+  of a cache state — regenerated from `hash/typeinfo.go` on every run equals `TypeCache.getTypeInfo (typeInfoOf structs)`
+  call by call and over every history; the two facts the model's header calls "measured" are theorems about the
+  regenerated code there: the returned record is a private copy (`returned_record_is_private`, `_stays_private`,
+  `hit_returns_copy_of_cached_record`) and entries are keyed by the dereferenced type
+  (`entries_are_keyed_by_dereferenced_type`, `forms_agree_at_code_level`); interleavings at the atomic-step boundaries
+  give every caller the cold-cache result (`interleaved_calls_return_the_cold_result`).
+
+The obligations of C18 are the union.
 -/
 
-namespace GoCrypt.C18
-open GoCrypt.Codec GoCrypt.TypeCache
-
-theorem load_append_miss (c : Cache) (k k' : TypeKey) (v : TypeInfo) (h : c.load k = none) :
-    Cache.load (c ++ [(k, v)]) k' = if k' = k then some v else c.load k' := by
-  unfold Cache.load at *
-  by_cases hk : k' = k
-  · subst hk
-    simp only [if_true]
-    have : c.find? (fun e => e.1 = k') = none := by
-      cases hf : c.find? (fun e => decide (e.1 = k')) with
-      | none => rfl
-      | some x => simp [hf] at h
-    simp [List.find?_append, this]
-  · simp only [hk, if_false]
-    cases hf : c.find? (fun e => decide (e.1 = k')) with
-    | none => simp [List.find?_append, hf]; intro h'; exact absurd h'.symm hk
-    | some x => simp [List.find?_append, hf]
-
-/-- The cache invariant is preserved by every call. -/
-theorem cacheOK_step (compute : TypeKey → Except TagErr TypeInfo) (c : Cache) (t : ArgType)
-    (h : CacheOK compute c) : CacheOK compute (getTypeInfo compute c t).1 := by
-  unfold getTypeInfo
-  cases hl : c.load t.key with
-  | some ti => simpa using h
-  | none =>
-    cases hc : compute t.key with
-    | error e => simpa using h
-    | ok info =>
-      simp only [Cache.loadOrStore, hl]
-      intro k ti hk
-      rw [load_append_miss c t.key k info hl] at hk
-      by_cases hkk : k = t.key
-      · subst hkk; simp at hk; subst hk; exact hc
-      · simp [hkk] at hk; exact h k ti hk
-
-theorem cacheOK_history (compute : TypeKey → Except TagErr TypeInfo) (c : Cache) (hist : List ArgType)
-    (h : CacheOK compute c) : CacheOK compute (runHistory compute c hist) := by
-  induction hist generalizing c with
-  | nil => exact h
-  | cons t ts ih => exact ih _ (cacheOK_step compute c t h)
-
-/-- The result of `getTypeInfo` is the same from any (well-formed) cache as from the empty one:
-`compute` of the dereferenced type, reporting the caller's own argument type. -/
-theorem result_independent_of_cache (compute : TypeKey → Except TagErr TypeInfo) (c : Cache) (t : ArgType)
-    (h : CacheOK compute c) :
-    (getTypeInfo compute c t).2 = (compute t.key).map fun ti => ⟨ti, t⟩ := by
-  unfold getTypeInfo
-  cases hl : c.load t.key with
-  | some ti => simp [h t.key ti hl, Except.map]
-  | none =>
-    cases hc : compute t.key with
-    | error e => simp [Except.map]
-    | ok info => simp [Cache.loadOrStore, hl, Except.map]
-
-theorem cacheOK_empty (compute : TypeKey → Except TagErr TypeInfo) : CacheOK compute [] := by
-  intro k ti h; simp [Cache.load] at h
-
-/-- (a) History independence: after ANY history of calls (any types, any value/pointer forms,
-succeeding or failing), a call returns exactly what it returns on a cold cache. -/
-theorem history_independent (compute : TypeKey → Except TagErr TypeInfo) (hist : List ArgType) (t : ArgType) :
-    (getTypeInfo compute (runHistory compute [] hist) t).2 = (getTypeInfo compute [] t).2 := by
-  rw [result_independent_of_cache compute _ t (cacheOK_history compute [] hist (cacheOK_empty compute)),
-      result_independent_of_cache compute [] t (cacheOK_empty compute)]
-
-/-- (b) Value, pointer and pointer-to-pointer forms get the same type info (only the reported
-struct name differs, and it is the caller's own). -/
-theorem forms_agree (compute : TypeKey → Except TagErr TypeInfo) (c : Cache) (k : TypeKey) (d₁ d₂ : Nat)
-    (h : CacheOK compute c) :
-    ((getTypeInfo compute c ⟨k, d₁⟩).2.map (·.info)) = ((getTypeInfo compute c ⟨k, d₂⟩).2.map (·.info)) := by
-  rw [result_independent_of_cache compute c _ h, result_independent_of_cache compute c _ h]
-  cases compute k <;> simp [Except.map]
-
-/-- (c) Invalid tag combinations are reported on every call: a failing `compute` is never cached,
-so the error comes back from any history. -/
-theorem invalid_tags_every_call (compute : TypeKey → Except TagErr TypeInfo) (hist : List ArgType) (t : ArgType)
-    (e : TagErr) (he : compute t.key = .error e) :
-    (getTypeInfo compute (runHistory compute [] hist) t).2 = .error e := by
-  rw [history_independent, result_independent_of_cache compute [] t (cacheOK_empty compute), he]; rfl
-
-/-- (d) The reported struct is the caller's argument type, never a previous caller's. -/
-theorem reports_own_struct (compute : TypeKey → Except TagErr TypeInfo) (hist : List ArgType) (t : ArgType) (r : Result)
-    (h : (getTypeInfo compute (runHistory compute [] hist) t).2 = .ok r) : r.reportedStruct = t := by
-  rw [history_independent, result_independent_of_cache compute [] t (cacheOK_empty compute)] at h
-  cases hc : compute t.key with
-  | error e => simp [hc, Except.map] at h
-  | ok ti => simp [hc, Except.map] at h; rw [← h]
-
-/-! Non-vacuity -/
-example : (getTypeInfo (fun _ => .ok {}) (runHistory (fun _ => .ok {}) [] [⟨"A", 0⟩, ⟨"B", 1⟩, ⟨"A", 2⟩]) ⟨"A", 1⟩).2
-    = .ok ⟨{}, ⟨"A", 1⟩⟩ := by rfl
-
-#print axioms load_append_miss
-#print axioms cacheOK_step
-#print axioms result_independent_of_cache
-#print axioms cacheOK_empty
-#print axioms cacheOK_history
-#print axioms history_independent
-#print axioms forms_agree
-#print axioms invalid_tags_every_call
-#print axioms reports_own_struct
-
--- the type-info layer IS the current code (Props/TypeInfoIR.lean): getRawTypeInfo (tag-parsing loop, embedded-struct recursion), (*typeInfo).field (with sort.Slice as ANY sorted permutation),
--- normalize and the cold path of getTypeInfo regenerated from hash/typeinfo.go on every run (records behind pointers, reflect.Type as operations over the struct descriptions) = fieldOpts/rawFields/resolveParam/normalizeLoop/typeInfoOf
+#print axioms GoCrypt.C18.load_append_miss
+#print axioms GoCrypt.C18.cacheOK_step
+#print axioms GoCrypt.C18.result_independent_of_cache
+#print axioms GoCrypt.C18.cacheOK_empty
+#print axioms GoCrypt.C18.cacheOK_history
+#print axioms GoCrypt.C18.history_independent
+#print axioms GoCrypt.C18.forms_agree
+#print axioms GoCrypt.C18.invalid_tags_every_call
+#print axioms GoCrypt.C18.reports_own_struct
 #print axioms GoCrypt.TypeInfoIR.no_unknown_nodes
 #print axioms GoCrypt.TypeInfoIR.normalize_eq_normalizeLoop
 #print axioms GoCrypt.TypeInfoIR.normalize_eq_normalizeLoop_exact
 #print axioms GoCrypt.TypeInfoIR.getRawTypeInfo_eq_rawFields
 #print axioms GoCrypt.TypeInfoIR.getTypeInfo_cold_eq_typeInfoOf
 #print axioms GoCrypt.TypeInfoIR.getTypeInfo_cold_eq_typeInfoOf_exact
-end GoCrypt.C18
+#print axioms GoCrypt.TypeCacheIR.cache_interpreter_is_conservative
+#print axioms GoCrypt.TypeCacheIR.only_getTypeInfo_touches_the_cache
+#print axioms GoCrypt.TypeCacheIR.other_functions_run_as_before
+#print axioms GoCrypt.TypeCacheIR.getTypeInfo_eq_model
+#print axioms GoCrypt.TypeCacheIR.getTypeInfo_eq_model_exact
+#print axioms GoCrypt.TypeCacheIR.successful_call_reports_own_struct
+#print axioms GoCrypt.TypeCacheIR.returned_record_is_private
+#print axioms GoCrypt.TypeCacheIR.hit_returns_copy_of_cached_record
+#print axioms GoCrypt.TypeCacheIR.entries_are_keyed_by_dereferenced_type
+#print axioms GoCrypt.TypeCacheIR.forms_agree_at_code_level
+#print axioms GoCrypt.TypeCacheIR.history_represents_runHistory
+#print axioms GoCrypt.TypeCacheIR.returned_record_stays_private
+#print axioms GoCrypt.TypeCacheIR.every_call_returns_the_cold_result
+#print axioms GoCrypt.TypeCacheIR.every_call_returns_the_cold_result_exact
+#print axioms GoCrypt.TypeCacheIR.histories_exist
+#print axioms GoCrypt.TypeCacheIR.small_steps_are_the_same_program
+#print axioms GoCrypt.TypeCacheIR.getTI_is_the_solo_run
+#print axioms GoCrypt.TypeCacheIR.interleaved_calls_return_the_cold_result
+#print axioms GoCrypt.TypeCacheIR.interleaved_calls_all_return
+#print axioms GoCrypt.TypeCacheIR.two_concurrent_calls
+#print axioms GoCrypt.TypeCacheIR.example_world_is_in_the_domain
+#print axioms GoCrypt.TypeCacheIR.example_two_concurrent_calls
